@@ -596,6 +596,46 @@ func c02SSA(c *Ctx, cs *Census, reach map[*ssa.Function]bool) []*panicSite {
 		for _, p := range f.Params {
 			pnames = append(pnames, p.Name())
 		}
+		// a helper newer than the rules with a single call site is the continuation of its
+		// caller: its sites are keyed under the caller, with the helper's parameters
+		// standing for the caller's arguments (so a reviewed site that was moved into an
+		// extracted helper keeps its key)
+		keyFn := fname(f)
+		var substituted []*ssa.Parameter
+		if isNewFunc(f) && f.Parent() == nil {
+			cur := f
+			for depth := 0; depth < 3 && isNewFunc(cur); depth++ {
+				calls := callersOf(c)[cur]
+				if len(calls) != 1 {
+					break
+				}
+				call := calls[0]
+				for i, p := range cur.Params {
+					if i < len(call.Call.Args) {
+						if _, dup := apathSubst[p]; !dup {
+							apathSubst[p] = call.Call.Args[i]
+							substituted = append(substituted, p)
+						}
+					}
+				}
+				cur = call.Parent()
+				for cur.Parent() != nil {
+					cur = cur.Parent()
+				}
+			}
+			if cur != f && !isNewFunc(cur) {
+				keyFn = fname(cur)
+				pnames = nil
+				for _, p := range cur.Params {
+					pnames = append(pnames, p.Name())
+				}
+			} else {
+				for _, p := range substituted {
+					delete(apathSubst, p)
+				}
+				substituted = nil
+			}
+		}
 		allInstrs(f, func(in ssa.Instruction) {
 			ps := c.Fset.Position(in.Pos())
 			rel, _ := filepath.Rel(c.RepoDir, ps.Filename)
@@ -748,6 +788,12 @@ func c02SSA(c *Ctx, cs *Census, reach map[*ssa.Function]bool) []*panicSite {
 		})
 		for _, s := range out[first:] {
 			s.params = pnames
+			if keyFn != fname(f) {
+				s.fn = keyFn
+			}
+		}
+		for _, p := range substituted {
+			delete(apathSubst, p)
 		}
 	}
 	return out
